@@ -509,7 +509,12 @@ pub fn execute(p: &RtProgram, prop: &str) -> RunInfo {
 
     match prop {
         "C02" => check_c02(p, &insts, &roots, start, &real, &mut info),
-        "C03" => check_c03(&model, &real, &mut info),
+        "C03" => {
+            check_c03(&model, &real, &mut info);
+            if !p.steps.is_empty() && info.violations.is_empty() {
+                check_c03_stepped(p, &insts, &roots, start, &real, &mut info);
+            }
+        }
         "C10" => check_c10(p, &insts, &roots, start, &model, &real, &mut info),
         "C11" => check_c11(p, &insts, &roots, start, &real, &mut info),
         _ => {}
@@ -746,6 +751,117 @@ fn check_c03(model: &Model, real: &RealRun, info: &mut RunInfo) {
         }
     }
     info.nontrivial = tie_group;
+}
+
+/// The tie rule when the run is driven in steps and events are added from outside while it is paused: the reference
+/// model is stepped as far as the real runtime went in each step (how far a step goes is C10's statement), an event
+/// added while paused is scheduled in the model at that point, and the complete order of the run must be the model's.
+fn check_c03_stepped(p: &RtProgram, insts: &[Inst], roots: &[usize], start: u64, unint: &RealRun, info: &mut RunInfo) {
+    if unint.escaped_panic.is_some() || !unint.rejected.is_empty() {
+        return;
+    }
+    if unint.handled.iter().any(|(uid, clock)| insts.get(*uid).map_or(true, |i| i.time != *clock)) {
+        return;
+    }
+    let tcap = p.t_ns.max(1);
+    // stepped real run; per step: events handled so far, and the event added while paused (uid, time)
+    let res = std::panic::catch_unwind(std::panic::AssertUnwindSafe(|| {
+        let mut rt = make_runtime(p, false);
+        rt.start();
+        let mut marks: Vec<(usize, Option<(usize, u64)>)> = Vec::new();
+        let mut ext_list: Vec<(usize, u64)> = Vec::new();
+        for step in &p.steps {
+            let before: Vec<(usize, u64)> = rt.app.log.handled.clone();
+            let pend = pending_now(&before, &ext_list, insts, roots);
+            let reported = before.last().map_or(start, |h| static_time(h.0, insts, &ext_list));
+            let next = pend.iter().map(|p| p.1).min();
+            let mut added = None;
+            match step {
+                Step::N { k } => {
+                    rt.dispatch_n_events((*k).min(1000) as usize);
+                }
+                Step::Until { kind, a } => {
+                    let t = match (kind % 5, next) {
+                        (0, Some(nt)) => nt,
+                        (1, Some(nt)) => nt.saturating_sub(1).max(reported),
+                        (2, Some(nt)) => nt + cap_delta(*a, tcap),
+                        (3, _) => reported.saturating_sub(*a % 1000),
+                        _ => reported + cap_delta(*a, tcap),
+                    };
+                    rt.dispatch_events_until(st(t));
+                }
+                Step::Add { kind, a } => {
+                    let time = match (kind % 4, next) {
+                        (0, _) => reported,
+                        (1, Some(nt)) if nt > reported + 1 => reported + 1 + a % (nt - reported - 1),
+                        (2, Some(nt)) => nt,
+                        _ => reported + cap_delta(*a, tcap),
+                    };
+                    let uid = EXT_BASE + ext_list.len();
+                    rt.add_event(Ev { uid }, st(time));
+                    ext_list.push((uid, time));
+                    added = Some((uid, time));
+                }
+            }
+            marks.push((rt.app.log.handled.len(), added));
+        }
+        rt.dispatch_all();
+        let handled = rt.app.log.handled.clone();
+        let _ = rt.finish();
+        (marks, handled, ext_list)
+    }));
+    let Ok((marks, handled, ext_list)) = res else {
+        let _ = crate::take_panic(Box::new(())); // a panicking step is C10's statement
+        crate::clear_panic();
+        return;
+    };
+    // every event ran at its timestamp, each exactly once (else: C02 / C10)
+    if handled.iter().any(|(uid, clock)| static_time(*uid, insts, &ext_list) != *clock) {
+        return;
+    }
+    // the model, stepped like the real run
+    let mut model = Model::new(insts, start);
+    model.seed_roots(roots, false);
+    model.seed_roots(roots, true);
+    for (count, added) in &marks {
+        while model.handled.len() < *count {
+            if !model.step() {
+                return; // the real run dispatched more than exists: C10 / C02
+            }
+        }
+        if model.handled.len() != *count {
+            return;
+        }
+        if let Some((uid, time)) = added {
+            if *time < model.clock {
+                return;
+            }
+            model.sched(*uid, *time);
+        }
+    }
+    while model.step() {}
+    {
+        let mut a: Vec<usize> = model.handled.iter().map(|h| h.0).collect();
+        let mut b: Vec<usize> = handled.iter().map(|h| h.0).collect();
+        a.sort_unstable();
+        b.sort_unstable();
+        if a != b {
+            return;
+        }
+    }
+    info.probe("tie_rule_checked_under_stepping");
+    for (i, (m, r)) in model.handled.iter().zip(handled.iter()).enumerate() {
+        if m.0 != r.0 {
+            if m.1 == r.1 {
+                info.violate(Violation::new("C03", "tie-order-stepped", format!(
+                    "stepped run with events added while paused, position {i}: event {} was dispatched at {} ns where the tie rule ranks event {} first", r.0, r.1, m.0)));
+            }
+            return;
+        }
+    }
+    if ext_list.iter().any(|e| handled.iter().filter(|h| h.1 == e.1).count() >= 2) {
+        info.probe("external_add_lands_in_tie_group");
+    }
 }
 
 fn limit_prefix_len(p: &RtProgram, seq: &[(usize, u64)]) -> usize {
@@ -1144,6 +1260,17 @@ pub fn generate(prop: &str, rng: &mut Rng, tier: Tier) -> RtProgram {
                 Step::N { k: rng.small(5) }
             } else {
                 Step::Until { kind: rng.below(3) as u8, a: rng.below(t_ns.saturating_mul(8).max(2)) }
+            });
+        }
+    }
+    if prop == "C03" && rng.chance(1, 3) {
+        // the tie rule under stepping: pauses inside tie groups, events added from outside for the current instant and
+        // for the timestamp of the next pending event
+        for _ in 0..1 + rng.small(12) {
+            prog.steps.push(match rng.weighted(&[4, 3, 5]) {
+                0 => Step::N { k: rng.small(4) },
+                1 => Step::Until { kind: rng.below(5) as u8, a: rng.below(t_ns.saturating_mul(4).max(2)) },
+                _ => Step::Add { kind: *rng.pick(&[0u8, 2, 2, 2, 1, 3]), a: rng.below(t_ns.saturating_mul(4).max(2)) },
             });
         }
     }
